@@ -200,3 +200,14 @@ func RunReplay() {
 	f()
 	fmt.Println("VF-REPLAY-PASS", rp.Harness)
 }
+
+// Value-level boolean connectives (no fork under the engine).
+func And(a, b bool) bool     { return a && b }
+func Or(a, b bool) bool      { return a || b }
+func Not(a bool) bool        { return !a }
+func Implies(a, b bool) bool { return !a || b }
+func Iff(a, b bool) bool     { return a == b }
+
+// StrEq / BytesEq compare without forking under the engine.
+func StrEq(a, b string) bool   { return a == b }
+func BytesEq(a, b []byte) bool { return string(a) == string(b) }
